@@ -443,6 +443,9 @@ impl ToOrdinal {
                 None => return Some(String::from(number)),
                 Some(num) => num,
             };
+            if number.is_empty() {
+                return Some(number);        // only block separators (e.g., a non-breaking space)
+            }
     
             // check to see if the number is too big or is not an integer or has non-digits
             if number.len() > 3*numbers_large.len() {
